@@ -685,6 +685,132 @@ shift_long(const struct spec_s *sp, int m, int d, int y0)
 	}
 }
 
+/* finer classes for the monthly multi family: shifts beyond a month and a half reach over two period ends */
+static const char*
+nclass_m(const struct spec_s *sp)
+{
+	const int a = sp->n < 0 ? -sp->n : sp->n;
+	if (a <= 5) {
+		return nclass(sp);
+	} else if (a <= 45) {
+		return sp->n < 0 ? "N=-6..-45" : "N=6..45";
+	}
+	return sp->n < 0 ? "N=-46..-366" : "N=46..366";
+}
+
+/* family multi: several selected dates per period.  DTSTART 2020-01-01, no limit.  Sources are the dates the
+ * rule selects in its periods (every INTERVAL-th year / month from DTSTART's); judged are the occurrences in
+ * 2023-01-01 .. 2030-12-31: each must be an acceptable image of some source, every source all of whose
+ * acceptable images lie in that window must have one of them in the stream, no day occurs twice. */
+struct fam_s {
+	const char *name;
+	const char *parts;	/* RRULE parts after FREQ/INTERVAL */
+	int monthly;
+};
+static const struct fam_s mfam[] = {
+	{"jan5+jun5", "BYMONTH=1,6;BYMONTHDAY=5", 0},
+	{"dec1+dec25", "BYMONTH=12;BYMONTHDAY=1,25", 0},
+	{"year-ends", "BYMONTH=1,12;BYMONTHDAY=1,31", 0},
+	{"1MO+20MO", "BYDAY=1MO,20MO", 0},
+	{"monthly-1+28", "BYMONTHDAY=1,28", 1},
+};
+#define NMFAM	((int)(sizeof(mfam) / sizeof(*mfam)))
+
+static int
+multi_sources(long *z, int max, int f, int inter)
+{
+	int n = 0;
+	if (mfam[f].monthly) {
+		for (int k = 0; k < 12 * 16; k += inter) {
+			const int y = 2020 + k / 12, m = 1 + k % 12;
+			if (n + 2 > max) break;
+			z[n++] = cvl_days(y, m, 1);
+			z[n++] = cvl_days(y, m, 28);
+		}
+		return n;
+	}
+	for (int y = 2020; y <= 2035 && n + 4 <= max; y += inter) {
+		switch (f) {
+		case 0: z[n++] = cvl_days(y, 1, 5); z[n++] = cvl_days(y, 6, 5); break;
+		case 1: z[n++] = cvl_days(y, 12, 1); z[n++] = cvl_days(y, 12, 25); break;
+		case 2: z[n++] = cvl_days(y, 1, 1); z[n++] = cvl_days(y, 1, 31); z[n++] = cvl_days(y, 12, 1); z[n++] = cvl_days(y, 12, 31); break;
+		default: {
+			long j = cvl_days(y, 1, 1);
+			while (cvl_wday(j) != 1) j++;
+			z[n++] = j;
+			z[n++] = j + 19 * 7;
+			break;
+		}
+		}
+	}
+	return n;
+}
+
+static void
+shift_multi(const struct spec_s *sp, int f, int inter)
+{
+	static long obs[600], srcz[420];
+	static struct src_s src[420];
+	char lines[256], sig[200], b1[48], b2[32], b3[32];
+	bool ended;
+	const long Z0 = cvl_days(2023, 1, 1), Z1 = cvl_days(2030, 12, 31);
+	const int ns = multi_sources(srcz, 420, f, inter);
+	int no;
+
+	for (int k = 0; k < ns; k++) {
+		src[k].valid = true;
+		src[k].z = srcz[k];
+		src[k].nimg = images(src[k].img, sp, srcz[k]);
+	}
+	if (inter > 1) {
+		snprintf(lines, sizeof(lines), "DTSTART;VALUE=DATE:20200101\nRRULE:FREQ=%s;INTERVAL=%d;%s;SHIFT=%s\n", mfam[f].monthly ? "MONTHLY" : "YEARLY", inter, mfam[f].parts, sp->txt);
+	} else {
+		snprintf(lines, sizeof(lines), "DTSTART;VALUE=DATE:20200101\nRRULE:FREQ=%s;%s;SHIFT=%s\n", mfam[f].monthly ? "MONTHLY" : "YEARLY", mfam[f].parts, sp->txt);
+	}
+	vd_desc("%s", lines);
+	for (char *q = vd_sh->desc; *q; q++) if (*q == '\n') *q = ' ';
+	no = run_stream(obs, 600, lines, Z1, &ended);
+	vd_sh->evals++;
+	if (no < 0) {
+		snprintf(sig, sizeof(sig), "multi-no-stream/%s/%s", fgroup(sp), (mfam[f].monthly ? nclass_m(sp) : nclass(sp)));
+		vd_viol(sig, "the parser gave no recurring task");
+		return;
+	}
+	if (nbad) {
+		snprintf(sig, sizeof(sig), "multi-not-a-date/%s/%s", fgroup(sp), (mfam[f].monthly ? nclass_m(sp) : nclass(sp)));
+		vd_viol(sig, "%d occurrences are not all-day dates of the calendar, first: %s", nbad, badstr(b1, sizeof(b1)));
+	}
+	for (int j = 0; j < no; j++) {
+		bool known = false;
+		if (obs[j] < Z0 || obs[j] > Z1) continue;
+		for (int k = 0; k < ns && !known; k++) known = img_has(&src[k], obs[j]);
+		if (!known) {
+			snprintf(sig, sizeof(sig), "multi-extra/%s/%s/%s/i%d", mfam[f].name, fgroup(sp), (mfam[f].monthly ? nclass_m(sp) : nclass(sp)), inter);
+			vd_viol(sig, "%s occurs but is the image of no selected date", zstr(b1, sizeof(b1), obs[j]));
+			break;
+		}
+	}
+	for (int k = 0; k < ns; k++) {
+		bool inwin = true, hit = false;
+		for (int q = 0; q < src[k].nimg; q++) inwin &= src[k].img[q] >= Z0 && src[k].img[q] <= Z1;
+		if (!inwin) continue;
+		for (int j = 0; j < no && !hit; j++) hit = img_has(&src[k], obs[j]);
+		if (!hit) {
+			snprintf(sig, sizeof(sig), "multi-missing/%s/%s/%s/i%d", mfam[f].name, fgroup(sp), (mfam[f].monthly ? nclass_m(sp) : nclass(sp)), inter);
+			vd_viol(sig, "%s must become %s%s%s, which does not occur", zstr(b1, sizeof(b1), src[k].z), zstr(b2, sizeof(b2), src[k].img[0]),
+				src[k].nimg > 1 ? " or " : "", src[k].nimg > 1 ? zstr(b3, sizeof(b3), src[k].img[1]) : "");
+			break;
+		}
+	}
+	for (int j = 1; j < no; j++) {
+		if (obs[j] <= obs[j - 1]) {
+			snprintf(sig, sizeof(sig), "multi-order/%s/%s/%s/i%d", mfam[f].name, fgroup(sp), (mfam[f].monthly ? nclass_m(sp) : nclass(sp)), inter);
+			vd_viol(sig, "occurrence %d (%s) is not after occurrence %d (%s)", j, zstr(b1, sizeof(b1), obs[j]), j - 1, zstr(b2, sizeof(b2), obs[j - 1]));
+			break;
+		}
+	}
+}
+
 static void
 enumerate(void)
 {
@@ -749,6 +875,25 @@ enumerate(void)
 				}
 				NONTRIVIAL();
 				vd_sample("shift long: BYMONTH=%d;BYMONTHDAY=%d;SHIFT=%s from June 1 of each of 1930..%d to 2099", md[q][0], md[q][1], sp[k].txt, ymax);
+			}
+		}
+	} else if (!strcmp(mode, "multi")) {
+		static struct spec_s sp[3000];
+		const int nsp = mkspecs(sp, 3000, vd_opt("nlist", "quick"));
+
+		for (int k = 0; k < nsp; k++) {
+			/* the B+/B- suffixes are not given a meaning for N != 0, B covers them */
+			if (sp[k].n && (sp[k].form == F_BPLUS || sp[k].form == F_BMINUS)) continue;
+			for (int f = 0; f < NMFAM; f++) {
+				for (int inter = 1; inter <= 2; inter++) {
+					if (!vd_next()) continue;
+					vd_shape("shift-multi/%s/%s", fgroup(&sp[k]), mfam[f].monthly ? nclass_m(&sp[k]) : nclass(&sp[k]));
+					shift_multi(&sp[k], f, inter);
+					if (sp[k].n != 0 || sp[k].form != F_DAY) {
+						NONTRIVIAL();
+					}
+					if (vd_want_sample()) vd_sample("shift multi: %s;SHIFT=%s INTERVAL=%d from 2020-01-01, judged 2023..2030", mfam[f].parts, sp[k].txt, inter);
+				}
 			}
 		}
 	} else {
